@@ -4,15 +4,15 @@ import OpcuaVerif.Model.C32
 namespace OpcuaVerif.C32
 
 structure DState where
-  vars : List (Nat × Var)
+  nodes : List (Nat × Node)
 
-def lookupVar : List (Nat × Var) → Nat → Option Var
+def lookupNode : List (Nat × Node) → Nat → Option Node
   | [], _ => none
-  | (i, v) :: rest, n => if i = n then some v else lookupVar rest n
+  | (i, v) :: rest, n => if i = n then some v else lookupNode rest n
 
-def setVar : List (Nat × Var) → Nat → Var → List (Nat × Var)
+def setNode : List (Nat × Node) → Nat → Node → List (Nat × Node)
   | [], n, v => [(n, v)]
-  | (i, x) :: rest, n, v => if i = n then (i, v) :: rest else (i, x) :: setVar rest n v
+  | (i, x) :: rest, n, v => if i = n then (i, v) :: rest else (i, x) :: setNode rest n v
 
 /-! value tokens: `n` empty, `i<ty>:<int>`, `s<hex>` / `sn`, `x<hex>` / `xn`, `a<ty>:[e,e,…]` -/
 
@@ -29,9 +29,12 @@ def parseElem (s : String) : Option Elem :=
     | _ => none
   | 's' :: r => (parseBytesTok (String.ofList r)).map .str
   | 'x' :: r => (parseBytesTok (String.ofList r)).map .bstr
+  | 'N' :: r => (String.ofList r).toNat?.bind fun n => if n < 4294967296 then some (.nodeId n) else none
+  | ['Q'] => some .qname
+  | ['L'] => some .ltext
   | _ => none
 
-def elemTyOk (t : Nat) : Bool := (1 ≤ t && t ≤ 12) || t == 15
+def elemTyOk (t : Nat) : Bool := (1 ≤ t && t ≤ 12) || t == 15 || t == 17 || t == 20 || t == 21
 
 def parseVal (s : String) : Option Val :=
   if s = "n" then some .empty else
@@ -59,6 +62,9 @@ def showElem : Elem → String
   | .num t x => s!"i{t}:{x}"
   | .str b => "s" ++ showBytesTok b
   | .bstr b => "x" ++ showBytesTok b
+  | .nodeId n => s!"N{n}"
+  | .qname => "Q"
+  | .ltext => "L"
 
 def showVal : Val → String
   | .empty => "n"
@@ -76,51 +82,199 @@ def showStatus : Status → String
   | .badWriteNotSupported => "BadWriteNotSupported"
   | .badTypeMismatch => "BadTypeMismatch"
 
-/-- range token: `s<hex>` or `sn` (null string; parses like the empty string) -/
-def parseRangeTok (s : String) : Option Bytes :=
+/-- range token: `s<hex>` or `sn` (null string; parses like the empty string); second component:
+the string is null -/
+def parseRangeTok (s : String) : Option (Bytes × Bool) :=
   match s.toList with
-  | 's' :: r => (parseBytesTok (String.ofList r)).map fun o => o.getD []
+  | 's' :: r => (parseBytesTok (String.ofList r)).map fun o => (o.getD [], o.isNone)
   | _ => none
 
-def dtOk (t : Nat) : Bool := [1, 2, 3, 4, 5, 6, 7, 8, 9, 10, 11, 12, 15, 24, 26, 27, 28].contains t
+def dtOk (t : Nat) : Bool := [1, 2, 3, 4, 5, 6, 7, 8, 9, 10, 11, 12, 15, 17, 20, 21, 24, 26, 27, 28].contains t
 
 def u32Ok (n : Nat) : Bool := n < 4294967296
 
+def clsOk (c : Nat) : Bool := [1, 2, 4, 8, 16, 32, 64, 128].contains c
+
+/-! ### arm tags (`result @@ tag,tag`): which branches of the model an op took -/
+
+def rgShape (range : Bytes) (null : Bool) : String :=
+  if null then "null" else
+  match parseRange range with
+  | some .none => "empty"
+  | some (.index _) => "index"
+  | some (.range _ _) => "range"
+  | some .multi => "multi"
+  | none => "invalid"
+
+def valShape : Val → String
+  | .empty => "empty"
+  | .one (.num _ _) => "num"
+  | .one (.str none) => "strnull"
+  | .one (.str (some _)) => "str"
+  | .one (.bstr none) => "bstrnull"
+  | .one (.bstr (some _)) => "bstr"
+  | .one _ => "other"
+  | .arr _ [] => "arrempty"
+  | .arr _ _ => "arr"
+
+def cmp3 (a b : Nat) : String := if a < b then "lt" else if a = b then "eq" else "gt"
+
+def lenOf : Val → Option (String × Nat × Bytes)
+  | .arr _ vals => some ("arr", vals.length, [])
+  | .one (.str (some v)) => some ("str", v.length, v)
+  | .one (.bstr (some v)) => some ("bstr", v.length, [])
+  | _ => none
+
+def stTag : Status → String
+  | .good => "good" | .badNodeIdUnknown => "nodeunknown" | .badAttributeIdInvalid => "attrinvalid"
+  | .badIndexRangeInvalid => "rangeinvalid" | .badIndexRangeNoData => "nodata" | .badNotReadable => "notreadable"
+  | .badNotWritable => "notwritable" | .badWriteNotSupported => "notsupported" | .badTypeMismatch => "mismatch"
+
+def attrTag (a : Nat) : String := if a ≤ 28 then toString a else "big"
+
+/-- boundary tags of an index / range against the length of the addressed value -/
+def boundTags (pre : String) (v : Val) (r : NR) : List String :=
+  match lenOf v, r with
+  | some (k, len, bytes), .index i =>
+    [s!"{pre}.idx.{k}.{cmp3 i len}"] ++
+      (if k = "str" ∧ i < len then [if isBoundary bytes i ∧ isBoundary bytes (i + 1) then "str.aligned" else if !isBoundary bytes i then "str.split-min" else "str.split-max"] else [])
+  | some (k, len, bytes), .range a b =>
+    [s!"{pre}.min.{k}.{cmp3 a len}", s!"{pre}.max.{k}.{cmp3 (b + 1) len}"] ++
+      (if k = "str" ∧ a < len then
+        let m := if b ≥ len then len - 1 else b
+        [if isBoundary bytes a ∧ isBoundary bytes (m + 1) then "str.aligned" else if !isBoundary bytes a then "str.split-min" else "str.split-max"] else [])
+  | _, _ => []
+
+def readTags (node : Option Node) (attr : Nat) (range : Bytes) (null : Bool) (out : ReadOut) : List String :=
+  let st := match out with | .status s => stTag s | .value _ => "value" | .other => "other" | .panic => "panic"
+  match node with
+  | none => ["r.nonode", s!"r.st.{st}"]
+  | some n =>
+    [s!"r.c{n.cls}.a{attrTag attr}", s!"r.st.{st}", s!"r.rg.{rgShape range null}"] ++
+    (if n.cls = 2 then [s!"r.acc{n.var.access % 4}"] else []) ++
+    (if n.cls = 2 ∧ attr = 13 ∧ canRead n.var then
+      match parseRange range with
+      | some r => [s!"rv.{valShape n.var.value}.{rgShape range false}"] ++ boundTags "r" n.var.value r
+      | none => []
+     else [])
+
+def validateTag (v : Var) (x : Val) : String :=
+  match x with
+  | .empty => "val.empty"
+  | .one e =>
+    if e.ty = v.dataType then "val.scalar-eq" else if isSubDT 4 e.ty v.dataType then "val.scalar-sub"
+    else (match e with
+      | .bstr _ => if v.dataType = 3 && byteArrayRank v.rank then "val.bstr-bytearray" else "val.scalar-bad"
+      | _ => "val.scalar-bad")
+  | .arr _ (e :: _) => if e.ty = v.dataType then "val.arr-eq" else if isSubDT 4 e.ty v.dataType then "val.arr-sub" else "val.arr-bad"
+  | .arr _ [] => "val.arr-empty"
+
+def setRangeTags (self : Val) (r : NR) (other : Val) : List String :=
+  if self.arrayTy.isNone then ["sr.self-not-array"]
+  else if other.arrayTy.isNone then ["sr.other-not-array"]
+  else if self.arrayTy ≠ other.arrayTy then ["sr.type-differs"]
+  else match self, other, r with
+    | .arr _ vals, .arr _ ovals, .index i => [s!"sr.idx.{cmp3 i vals.length}", s!"sr.olen.{cmp3 ovals.length 1}"]
+    | .arr _ vals, .arr _ ovals, .range a b =>
+      [s!"sr.min.{cmp3 a vals.length}"] ++
+      (if a < vals.length then
+        -- what stops the copy loop first: end of the range, end of the destination, end of the source
+        [s!"copy.src-vs-range.{cmp3 ovals.length (b + 1 - a)}", s!"copy.dst-vs-range.{cmp3 (vals.length - a) (b + 1 - a)}",
+         s!"copy.src-vs-dst.{cmp3 ovals.length (vals.length - a)}"] else [])
+    | _, _, .multi => ["sr.multi"]
+    | _, _, _ => []
+
+def writeTags (node : Option Node) (attr : Nat) (range : Bytes) (null : Bool) (x : Option Val) (st : Status) : List String :=
+  match node with
+  | none => ["w.nonode", s!"w.st.{stTag st}"]
+  | some n =>
+    [s!"w.c{n.cls}.a{attrTag attr}", s!"w.st.{stTag st}", s!"w.rg.{rgShape range null}",
+     s!"w.val.{match x with | none => "none" | some v => valShape v}"] ++
+    (if n.cls = 2 ∧ attr = 13 then
+      [s!"w.acc{n.var.access % 4}"] ++
+      (match x, parseRange range with
+       | some v, some r =>
+         if canWrite n.var then
+           [validateTag n.var v] ++
+           (if validate n.var v then
+             [if convert n.var v = v then "conv.none" else (match v with | .one (.bstr none) => "conv.bstr-null" | _ => "conv.bstr")] ++
+             (if r = .none then ["w.whole"] else setRangeTags n.var.value r (convert n.var v))
+            else [])
+         else []
+       | _, _ => [])
+     else if attrValid attr then
+      [match n.writeMask, maskBit n.cls attr with
+        | none, _ => "w.mask.none"
+        | some _, none => "w.mask.nobit"
+        | some m, some b => if m / 2 ^ b % 2 = 1 then "w.mask.set" else "w.mask.clear"] ++
+      (if isWritable n attr ∧ attr ≠ 13 ∧ null ∧ (parseRange range).isSome then
+        match x with
+        | some v => [s!"set.c{n.cls}.a{attr}.{stTag (setAttribute n attr v).1}"]
+        | none => []
+       else [])
+     else [])
+
+def withTags (res : String) (tags : List String) : String :=
+  if tags.isEmpty then res else res ++ " @@ " ++ ",".intercalate tags
+
 def dstep (s : DState) (toks : List String) : DState × String :=
   match toks with
-  | ["reset"] => ({ vars := [] }, "ok")
+  | ["reset"] => ({ nodes := [] }, "ok")
   | ["var", id, dt, rank, access, v] =>
     match id.toNat?, dt.toNat?, parseInt? rank, access.toNat?, parseVal v with
     | some id, some dt, some rank, some access, some v =>
       if id = 0 ∨ !u32Ok id ∨ !dtOk dt ∨ rank < -3 ∨ rank > 3 ∨ access > 255 then (s, "bad-op") else
-      match lookupVar s.vars id with
+      match lookupNode s.nodes id with
       | some _ => (s, "ok 0")
-      | none => ({ vars := setVar s.vars id ⟨dt, rank, access, v⟩ }, "ok 1")
+      -- VariableBuilder::value goes through `set_value`, so a ByteString given to a Byte array is converted
+      | none => ({ nodes := setNode s.nodes id ⟨2, ⟨dt, rank, access, convert ⟨dt, rank, access, .empty⟩ v⟩, none, []⟩ }, "ok 1")
     | _, _, _, _, _ => (s, "bad-op")
+  | ["node", id, cls] =>
+    -- a node of another class, built with the plain constructor (no optional attributes)
+    match id.toNat?, cls.toNat? with
+    | some id, some cls =>
+      if id = 0 ∨ !u32Ok id ∨ !clsOk cls ∨ cls = 2 then (s, "bad-op") else
+      match lookupNode s.nodes id with
+      | some _ => (s, "ok 0")
+      | none => ({ nodes := setNode s.nodes id ⟨cls, ⟨6, -1, 1, .empty⟩, none, []⟩ }, "ok 1")
+    | _, _ => (s, "bad-op")
+  | ["wmask", id, m] =>
+    -- `set_write_mask` through the node API (setup, not a service call)
+    match id.toNat?, m.toNat? with
+    | some id, some m =>
+      if !u32Ok id ∨ !u32Ok m then (s, "bad-op") else
+      match lookupNode s.nodes id with
+      | some n => ({ nodes := setNode s.nodes id { n with writeMask := some (m % 67108864) } }, "ok 1")
+      | none => (s, "ok 0")
+    | _, _ => (s, "bad-op")
   | ["read", id, attr, range] =>
     match id.toNat?, attr.toNat?, parseRangeTok range with
-    | some id, some attr, some range =>
+    | some id, some attr, some (range, null) =>
       if !u32Ok id ∨ !u32Ok attr then (s, "bad-op") else
-      match read (lookupVar s.vars id) attr range with
-      | .status st => (s, "ok " ++ showStatus st)
-      | .value v => (s, "ok Good " ++ showVal v)
-      | .other => (s, "ok Good")
+      let node := lookupNode s.nodes id
+      let out := readNode node attr range
+      let tags := readTags node attr range null out
+      match out with
+      | .status st => (s, withTags ("ok " ++ showStatus st) tags)
+      | .value v => (s, withTags ("ok Good " ++ showVal v) tags)
+      | .other => (s, withTags "ok Good" tags)
       | .panic => (s, "panic")
     | _, _, _ => (s, "bad-op")
   | ["write", id, attr, range, v] =>
     match id.toNat?, attr.toNat?, parseRangeTok range with
-    | some id, some attr, some range =>
+    | some id, some attr, some (range, null) =>
       if !u32Ok id ∨ !u32Ok attr then (s, "bad-op") else
       let x : Option (Option Val) := if v = "-" then some none else (parseVal v).map some
       match x with
       | none => (s, "bad-op")
       | some x =>
-        match write (lookupVar s.vars id) attr range x with
-        | (st, some nv) => ({ vars := setVar s.vars id nv }, "ok " ++ showStatus st)
-        | (st, none) => (s, "ok " ++ showStatus st)
+        let node := lookupNode s.nodes id
+        match writeNode node attr range null x with
+        | (st, some nv) => ({ nodes := setNode s.nodes id nv }, withTags ("ok " ++ showStatus st) (writeTags node attr range null x st))
+        | (st, none) => (s, withTags ("ok " ++ showStatus st) (writeTags node attr range null x st))
     | _, _, _ => (s, "bad-op")
   | _ => (s, "bad-op")
 
-def driver : Driver := { σ := DState, init := { vars := [] }, step := dstep }
+def driver : Driver := { σ := DState, init := { nodes := [] }, step := dstep }
 
 end OpcuaVerif.C32
